@@ -240,6 +240,25 @@ def mps_checks(ctx):
                 ctx.violation('in-place canonize_ on an MPS %s() changed the source' % how, dict(kind='mps-copy-dep-rev', how=how, family=fam, sym=sym, N=N))
             if mps_snap(c) != sc:
                 ctx.violation('MPS %s() changed spontaneously' % how, dict(kind='mps-copy', how=how))
+        # the same with a central block pending on a bond (mid-sweep objects are copied, too)
+        if N >= 2:
+            for how in ('copy', 'clone'):
+                w = psi.copy()
+                w.orthogonalize_site_(rng.randint(0, N - 2), to='last', normalize=False)
+                w2 = getattr(w, how)()
+                s2, sw = mps_snap(w2), mps_snap(w)
+                ctx.case(dict(kind='mps-copy-central', how=how, family=fam, sym=sym, N=N), nontrivial=True)
+                if s2 != sw:
+                    ctx.violation('MPS %s() with a central block differs from its source' % how, dict(kind='mps-copy-central', how=how))
+                blk = w.A[w.pC]
+                w.A[w.pC][blk.get_blocks_charge()[0]] = 7 * blk[blk.get_blocks_charge()[0]]          # item assignment into a block of the central tensor
+                if mps_snap(w2) != s2:
+                    ctx.violation('writing into the central block of an MPS changed its %s()' % how, dict(kind='mps-copy-central-dep', how=how, family=fam, sym=sym, N=N))
+                sw = mps_snap(w)
+                blk2 = w2.A[w2.pC]
+                w2.A[w2.pC][blk2.get_blocks_charge()[0]] = 3 * blk2[blk2.get_blocks_charge()[0]]
+                if mps_snap(w) != sw:
+                    ctx.violation('writing into the central block of an MPS %s() changed the source' % how, dict(kind='mps-copy-central-dep-rev', how=how, family=fam, sym=sym, N=N))
         # in-place algorithms modify only their receiver
         before = {k: mps_snap(v) for k, v in (('phi', phi), ('H', H))}
         w = psi.copy()
@@ -287,6 +306,30 @@ def peps_checks(ctx):
         psi.to_dict(level=2)
         if snap(psi) != sp:
             ctx.violation('Peps query changed the Peps', dict(kind='peps-mutates'))
+        # sampling: the projectors handed over -- in every accepted container form -- stay what they were
+        vecs = {0: ops.vec_n(val=0), 1: ops.vec_n(val=1)}
+        forms = {'dict for all sites': lambda: dict(vecs), 'list for all sites': lambda: [vecs[0], vecs[1]],
+                 'per-site lists': lambda: {s_: [vecs[0], vecs[1]] for s_ in geom.sites()},
+                 'per-site dicts': lambda: {s_: dict(vecs) for s_ in geom.sites()}}
+
+        def psnap(pr):
+            if isinstance(pr, list):
+                return [(id(t), tgen.snapshot(t)) for t in pr]
+            return {k: (psnap(v) if isinstance(v, (dict, list)) else (id(v), tgen.snapshot(v))) for k, v in pr.items()}
+        envs_ = {'ctm': fpeps.EnvCTM(psi, init='dl'), 'boundary-mps': fpeps.EnvBoundaryMPS(psi, opts_svd={'D_total': 4}, setup='lr'), 'bp': fpeps.EnvBP(psi)}
+        for ename, env_ in envs_.items():
+            for fname, mk in forms.items():
+                pr = mk()
+                b4 = psnap(pr)
+                try:
+                    env_.sample(projectors=pr, number=1)
+                except (yastn.YastnError, TypeError, KeyError, AttributeError, IndexError):
+                    ctx.count('sample-rejected:%s:%s' % (ename, fname))
+                    continue
+                ctx.case(dict(kind='sample-arguments', env=ename, form=fname, rep=rep), nontrivial=True)
+                if psnap(pr) != b4:
+                    ctx.violation('%s.sample(projectors=<%s>) changed the projectors it was given' % (ename, fname), dict(kind='sample-mutates-projectors', env=ename, form=fname),
+                                  family='sample-mutates-projectors')
         # copies of a container with an ACTIVE patch (infinite lattices): the copy equals its source and is independent of it
         ipsi = fpeps.product_peps(fpeps.CheckerboardLattice(), ops.vec_n(val=1))
         s0 = ipsi.sites()[0]
